@@ -90,6 +90,7 @@ func main() {
 	extra(out)
 	extra2(out)
 	extra3(out)
+	extra4(out)
 }
 
 // extra adds k10..k17 (leaves of the CA reusing k8's key, common names of 1..8 extra characters so that the
@@ -275,5 +276,31 @@ func extra3(out string) {
 		re, _ := asn1.Marshal(c.Issuer.ToRDNSequence())
 		fmt.Println(21+i, "foreign DN encoding; re-encoding the parsed issuer reproduces the bytes:", string(re) == string(c.RawIssuer), len(der))
 		write(out, fmt.Sprint("k", 21+i), key, der)
+	}
+}
+
+
+// extra4 adds k24 and k25: self-signed certificates over RSA keys whose modulus length is not a multiple of 8 bits
+// (2049 and 2047 bits): byte-length arithmetic on signatures that rounds the wrong way shows only there.
+func extra4(out string) {
+	if _, err := os.Stat(out + "/k24.key.pem"); err == nil {
+		return
+	}
+	for i, bits := range []int{2049, 2047} {
+		key, err := rsa.GenerateKey(rand.Reader, bits)
+		if err != nil {
+			panic(err)
+		}
+		t := &x509.Certificate{
+			SerialNumber: big.NewInt(int64(0x6001 + i)), Subject: pkix.Name{CommonName: fmt.Sprintf("sim odd modulus %d", bits), Organization: []string{"verif sim"}},
+			NotBefore: time.Date(1999, 1, 1, 0, 0, 0, 0, time.UTC), NotAfter: time.Date(2099, 1, 1, 0, 0, 0, 0, time.UTC),
+			KeyUsage: x509.KeyUsageDigitalSignature, ExtKeyUsage: []x509.ExtKeyUsage{x509.ExtKeyUsageCodeSigning},
+		}
+		der, err := x509.CreateCertificate(rand.Reader, t, t, &key.PublicKey, key)
+		if err != nil {
+			panic(err)
+		}
+		write(out, fmt.Sprint("k", 24+i), key, der)
+		fmt.Println(24+i, "modulus bits", key.N.BitLen(), len(der))
 	}
 }
